@@ -4,10 +4,15 @@ import (
 	"context"
 	"fmt"
 	"strings"
+	"sync"
+	"sync/atomic"
 	"time"
 
 	"github.com/containerd/nri/pkg/adaptation"
 	"github.com/containerd/nri/pkg/api"
+	"github.com/containerd/nri/pkg/stub"
+	"github.com/containerd/nri/pkg/zzverif/vsched"
+	"github.com/containerd/ttrpc"
 
 	"nriverif/lib/full"
 	"nriverif/lib/rep"
@@ -146,8 +151,35 @@ func engineFull(f *rep.Flags, res *rep.Result) {
 		pl.Stub.Stop()
 		rt.Close()
 	}
+	// the plugin stops in the middle of a split synchronisation (after part k of the state was
+	// collected) and starts again at once; the earlier session's connection-closed notification is
+	// delivered as it comes or held at the gate until the new session was synchronised
+	type midCase struct {
+		s         st
+		stopAfter int
+	}
+	big := st{rep1(300, 30<<10), rep1(300, 30<<10)} // 18 MiB: at least five parts
+	midCases := []midCase{{st{rep1(100, 30<<10), rep1(100, 30<<10)}, 1}, {st{rep1(20, 100<<10), rep1(60, 100<<10)}, 1}, {big, 1}, {big, 2}, {big, 3}}
+	for _, mc := range midCases {
+		s, stopAfter := mc.s, mc.stopAfter
+		for _, held := range []bool{false, true} {
+			desc := fmt.Sprintf("pods=%s ctrs=%s, plugin stopped after part %d of the split synchronisation and restarted (earlier notification held: %v)", sizes(s.pods), sizes(s.ctrs), stopAfter, held)
+			res.Evaluations++
+			res.States++
+			res.Transitions += 3
+			if msg, machinery := runMidSplit(s.pods, s.ctrs, stopAfter, held); msg != "" {
+				if machinery {
+					res.Exhaustive = false
+					res.Notes = append(res.Notes, "case skipped: "+desc+": "+msg)
+				} else {
+					fail("stale-chunks-after-restart|stopped-mid-split", "%s: %s", desc, msg)
+				}
+			}
+		}
+	}
 	res.Distinct = res.Evaluations
 	res.Bounds["full_stack_states"] = len(states)
+	res.Bounds["stopped_mid_split_cases"] = len(midCases) * 2
 	res.Sample(map[string]any{"state": "10 tiny + 10 x 600 KiB pods and containers", "expect": "fails cleanly after the tiny objects were chunked; plugin inactive; after the runtime's state shrinks the same stub re-registers and is handed exactly the new state"})
 }
 
@@ -160,4 +192,94 @@ func seamSucceeds(c *Case) bool {
 		_ = m
 	}
 	return lastRunOK
+}
+
+
+// runMidSplit: see engineFull. Returns a violation message (or a machinery problem).
+func runMidSplit(pods, ctrs []int, stopAfter int, held bool) (msg string, machinery bool) {
+	rt, err := full.NewRuntime()
+	if err != nil {
+		return err.Error(), true
+	}
+	defer rt.Close()
+	rt.Pods, rt.Ctrs = mkState(pods, ctrs)
+	if err := rt.Start(); err != nil {
+		return err.Error(), true
+	}
+	pl := full.NewPlugin("10", "mid")
+	var parts int32
+	reached := make(chan struct{})
+	var once sync.Once
+	icpt := ttrpc.WithUnaryServerInterceptor(func(ctx context.Context, um ttrpc.Unmarshaler, info *ttrpc.UnaryServerInfo, method ttrpc.Method) (interface{}, error) {
+		resp, err := method(ctx, um)
+		if strings.HasSuffix(info.FullMethod, "Synchronize") {
+			if int(atomic.AddInt32(&parts, 1)) == stopAfter {
+				once.Do(func() { close(reached) })
+			}
+		}
+		return resp, err
+	})
+	var gmu sync.Mutex
+	var heldC []chan struct{}
+	gating := held
+	vsched.SetGate("stub.connClosed", func(obj any) {
+		if pl.Stub == nil || obj != any(pl.Stub) {
+			return
+		}
+		gmu.Lock()
+		if !gating {
+			gmu.Unlock()
+			return
+		}
+		ch := make(chan struct{})
+		heldC = append(heldC, ch)
+		gmu.Unlock()
+		<-ch
+	})
+	release := func() {
+		gmu.Lock()
+		gating = false
+		for _, ch := range heldC {
+			close(ch)
+		}
+		heldC = nil
+		gmu.Unlock()
+	}
+	defer func() {
+		release()
+		if pl.Stub != nil {
+			pl.Stub.Stop()
+		}
+	}()
+	if err := pl.StartDial(rt, stub.WithTTRPCOptions(nil, []ttrpc.ServerOpt{icpt})); err != nil {
+		return "start: " + err.Error(), true
+	}
+	select {
+	case <-reached:
+	case <-time.After(20 * time.Second):
+		return fmt.Sprintf("part %d of the synchronisation never arrived (state not split?); parts seen %d, handler calls %d, closed %d, active %v", stopAfter, atomic.LoadInt32(&parts), pl.SyncCount(), pl.ClosedCount(), pl.WaitActive(rt, 0)), true
+	}
+	if pl.SyncCount() != 0 {
+		return "the state was delivered before the last part (not split)", true
+	}
+	pl.Stub.Stop()
+	if err := pl.Restart(); err != nil {
+		return "restarting the stub failed: " + err.Error(), false
+	}
+	ok := false
+	for deadline := time.Now().Add(30 * time.Second); time.Now().Before(deadline) && !ok; time.Sleep(2 * time.Millisecond) {
+		ok = pl.SyncCount() > 0
+	}
+	release()
+	if !ok {
+		return "the restarted plugin was not synchronised within 30 s", false
+	}
+	if n := pl.SyncCount(); n != 1 {
+		return fmt.Sprintf("the Synchronize handler ran %d times", n), false
+	}
+	gp, gc := pl.SyncIDs(0)
+	if strings.Join(gp, ",") != ids(len(pods), "p") || strings.Join(gc, ",") != ids(len(ctrs), "c") {
+		return fmt.Sprintf("the re-registered plugin was handed %d pods / %d containers instead of the runtime's %d / %d (parts collected in the aborted session survived)", len(gp), len(gc), len(pods), len(ctrs)), false
+	}
+	return "", false
 }
